@@ -235,7 +235,7 @@ def _strip_doc(body: List[ast.stmt]) -> List[ast.stmt]:
     return body
 
 
-def _bind(h: _Helper, call: ast.Call, caller_names: Set[str], caller_self: Optional[str]) -> Tuple[List[ast.stmt], Dict[str, ast.AST], Dict[str, str]]:
+def _bind(h: _Helper, call: ast.Call, caller_names: Set[str], caller_self: Optional[str], overwritten: Set[str] = frozenset()) -> Tuple[List[ast.stmt], Dict[str, ast.AST], Dict[str, str]]:
     """(prologue assignments, parameter->expression substitutions, local renames) for one call site"""
     fn = h.node
     params = [a.arg for a in fn.args.args]
@@ -278,6 +278,12 @@ def _bind(h: _Helper, call: ast.Call, caller_names: Set[str], caller_self: Optio
     rename: Dict[str, str] = {}
     suffix = f"__{fn.name.lstrip('_')}"
     for p, a in bound.items():
+        if p in stored and isinstance(a, ast.Name) and a.id in overwritten:
+            # x = h(x) / x, y = h(x): the caller's variable is overwritten by this very statement, so the helper may work on it
+            # directly instead of on a renamed copy
+            if a.id != p:
+                rename[p] = a.id
+            continue
         if p in stored or not _simple_arg(a):
             # needs its own variable (reassigned in the helper, or the argument is not a plain reference)
             newp = p if (p not in caller_names) else p + suffix
@@ -296,7 +302,13 @@ def _bind(h: _Helper, call: ast.Call, caller_names: Set[str], caller_self: Optio
 
 
 def _expand(h: _Helper, call: ast.Call, res: Optional[str], caller_names: Set[str], caller_self: Optional[str], at: ast.AST) -> List[ast.stmt]:
-    prologue, expr_map, rename = _bind(h, call, caller_names, caller_self)
+    overwritten: Set[str] = set()
+    if isinstance(at, ast.Assign) and (at.value is call or (isinstance(at.value, ast.YieldFrom) and at.value.value is call)):
+        for t in at.targets:
+            for x in ast.walk(t):
+                if isinstance(x, ast.Name) and isinstance(x.ctx, ast.Store):
+                    overwritten.add(x.id)
+    prologue, expr_map, rename = _bind(h, call, caller_names, caller_self, overwritten)
     body = copy.deepcopy(_strip_doc(h.node.body))
     body = single_exit(body, res)
     sub = _Subst(expr_map, rename)
@@ -545,6 +557,8 @@ def inline_module(tree: ast.Module, known: Optional[Set[str]]) -> ast.Module:
                 st2 = copy.copy(st)
                 st2.value = ast.copy_location(res_expr, st)
                 tail = [st2]
+                if isinstance(st2, ast.Assign) and len(st2.targets) == 1 and isinstance(st2.targets[0], ast.Name) and isinstance(st2.value, ast.Name) and st2.value.id == st2.targets[0].id:
+                    tail = []  # x = x
             elif mode == "return":
                 tail = [ast.copy_location(ast.Return(value=ast.copy_location(res_expr, st)), st)]
             # helpers called by the helper are expanded in turn
